@@ -378,13 +378,31 @@ def _run_history(item, ctx):
         vals = sorted(set(map(float, list(probe.pos) + list(probe.neg))))
     T = ot.threshold_alphabet(vals)[1:-1]
 
+    Tu = T[1::2] + T[0::2][::-1]  # caller arrays are deliberately unsorted
+
     def make_env():
-        return {"T": np.array(T, dtype=float), "t": float(T[len(T) // 2]), "Tlist": list(T[:3]), "T2": np.array(T[:4]).reshape(2, 2),
+        return {"T": np.array(Tu, dtype=float), "t": float(T[len(T) // 2]), "Tlist": list(Tu[:3]), "T2": np.array(Tu[:4]).reshape(2, 2),
                 "R": np.array([0.5, 0.0, 1.0, 0.3]), "Rint": np.array([0, 1, 1]), "labels": np.array([1, 0, 1, 0]),
                 "scores": np.array([0.5, 2.0, 1.0, 2.0])}
 
     case = {"kind": "history", "object": name, "uses_global_rng": False}
-    res = opgraph.explore(make, make_env, events, snap, ctx, case, max_states=40)
+    by_name = dict(events)
+
+    def make_env2():
+        e = make_env()
+        e["T"] = e["T"][::-1].copy() + 0.125  # same shapes, other values
+        e["T2"] = e["T2"] + 0.125
+        e["t"] = e["t"] + 0.125
+        e["R"] = e["R"][::-1].copy()
+        return e
+
+    def perturb(name):
+        # the same query with other arguments of the same shape, then one unrelated vectorised query
+        fn = by_name[name]
+        other = "cm(array)" if "cm(array)" in by_name and name != "cm(array)" else events[0][0]
+        return [(name + "'", lambda o, e, fn=fn: fn(o, make_env2())), (other, by_name[other])]
+
+    res = opgraph.explore(make, make_env, events, snap, ctx, case, max_states=40, perturb=perturb)
     ctx.state(res["states"])
     ctx.nontrivial(res["outcomes"])
     if not res["fixpoint"]:
